@@ -291,6 +291,7 @@ type Cfg struct {
 	CapMax      bool   `json:"capmax"`
 	Alloc       bool   `json:"alloc"`
 	Moving      bool   `json:"moving"` // with Alloc: Reallocate returns a fresh buffer whenever the memory grows
+	Chunked     bool   `json:"chunked"` // with Alloc: buffers come in chunks of two pages (spare capacity!); on a move the allocator copies the length it was last told
 	Debug       bool   `json:"debug"`
 	Custom      bool   `json:"custom"`
 	Listener    bool   `json:"listener"`
@@ -306,6 +307,9 @@ func (cf Cfg) allocLevel() int {
 	}
 	if cf.Moving {
 		return 2
+	}
+	if cf.Chunked {
+		return 3
 	}
 	return 1
 }
@@ -327,14 +331,14 @@ func (cf Cfg) vec() [7]int {
 }
 
 func randCfg(rng *c.Rng) Cfg {
-	al := rng.Intn(3)
-	return Cfg{cacheModes[rng.Intn(len(cacheModes))], rng.Bool(), al > 0, al == 2, rng.Bool(), rng.Bool(), rng.Bool(), rng.Bool(), rng.Intn(3) == 0}
+	al := rng.Intn(4)
+	return Cfg{cacheModes[rng.Intn(len(cacheModes))], rng.Bool(), al > 0, al == 2, al == 3, rng.Bool(), rng.Bool(), rng.Bool(), rng.Bool(), rng.Intn(3) == 0}
 }
 
 // lattice returns rows covering every pair of factor values (greedy), padded with random rows.
 func lattice(rng *c.Rng, rows int) []Cfg {
 	type pair struct{ f1, v1, f2, v2 int }
-	levels := [7]int{len(cacheModes), 2, 3, 2, 2, 2, 2}
+	levels := [7]int{len(cacheModes), 2, 4, 2, 2, 2, 2}
 	need := map[pair]bool{}
 	for f1 := 0; f1 < 7; f1++ {
 		for f2 := f1 + 1; f2 < 7; f2++ {
@@ -389,8 +393,8 @@ func other(rng *c.Rng, cf Cfg) Cfg {
 			o.CapMax = !o.CapMax
 		}
 		if rng.Bool() {
-			al := (o.allocLevel() + 1 + rng.Intn(2)) % 3
-			o.Alloc, o.Moving = al > 0, al == 2
+			al := (o.allocLevel() + 1 + rng.Intn(3)) % 4
+			o.Alloc, o.Moving, o.Chunked = al > 0, al == 2, al == 3
 		}
 		if rng.Bool() {
 			o.Debug = !o.Debug
@@ -490,6 +494,38 @@ func (m *movingMem) Reallocate(size uint64) []byte {
 func (m *movingMem) Free() {}
 
 var movingAllocator = experimental.MemoryAllocatorFunc(func(cap, max uint64) experimental.LinearMemory { return &movingMem{} })
+
+// chunkMem hands out buffers whose capacity is a multiple of two pages, so the slice it returns usually has SPARE
+// capacity. It keeps the length it was last asked for: newly exposed bytes are cleared, and when the buffer has to move
+// exactly that length is copied (what the LinearMemory contract promises to preserve). A runtime that changes the size
+// without telling the allocator loses data at the next move.
+type chunkMem struct {
+	buf  []byte
+	n    uint64
+	kept [][]byte
+}
+
+const chunkBytes = 2 * 65536
+
+func (m *chunkMem) Reallocate(size uint64) []byte {
+	if size <= uint64(cap(m.buf)) {
+		full := m.buf[:cap(m.buf)]
+		for i := m.n; i < size; i++ {
+			full[i] = 0
+		}
+		m.n = size
+		m.buf = full[:size]
+		return m.buf
+	}
+	nb := make([]byte, size, (size+chunkBytes-1)/chunkBytes*chunkBytes)
+	copy(nb, m.buf[:cap(m.buf)][:m.n])
+	m.kept = append(m.kept, m.buf)
+	m.buf, m.n = nb, size
+	return nb
+}
+func (m *chunkMem) Free() {}
+
+var chunkedAllocator = experimental.MemoryAllocatorFunc(func(cap, max uint64) experimental.LinearMemory { return &chunkMem{} })
 
 type Trace struct {
 	Results [][]any  `json:"results"`
@@ -597,6 +633,8 @@ func (x *rt) exec(ctx context.Context, p *Prog, e Exec) (out Exec) {
 	if cf.Alloc {
 		if cf.Moving {
 			ictx = experimental.WithMemoryAllocator(ictx, movingAllocator)
+		} else if cf.Chunked {
+			ictx = experimental.WithMemoryAllocator(ictx, chunkedAllocator)
 		} else {
 			ictx = experimental.WithMemoryAllocator(ictx, allocator)
 		}
@@ -895,6 +933,8 @@ func main() {
 		for _, capmax := range []bool{true, false} {
 			cf := Cfg{Cache: cm, CapMax: capmax, Alloc: true, Moving: true}
 			fixedRows = append(fixedRows, [2]Cfg{cf, cf})
+			ch := Cfg{Cache: cm, CapMax: capmax, Alloc: true, Chunked: true}
+			fixedRows = append(fixedRows, [2]Cfg{ch, ch})
 		}
 	}
 	out.Emit(map[string]any{"t": "lattice", "rows": lat, "fixed": fixedRows})
